@@ -46,14 +46,25 @@ RefContact(K, S, c) == LET i == Latest(S, LAMBDA j : K[j].sub = c /\ CStateOf(K[
                          IF i = 0 THEN "U" ELSE CStateOf(K[i].k)
 RefGroup(K, S, g) == LET i == Latest(S, LAMBDA j : K[j].sub = g /\ K[j].k \in {"join", "leave"}) IN
                        IF i # 0 /\ K[i].k = "join" THEN "join" ELSE "no"
+\* seed / metadata of a contact: from its newest enqueue / incoming-request event that carries one (each field on its own)
+RefDetail(K, S, c, f) == LET i == Latest(S, LAMBDA j : K[j].sub = c /\ K[j].k \in {"enq", "recv"} /\ K[j][f] # "-") IN
+                           IF i = 0 THEN "-" ELSE K[i][f]
+\* ... but only while the contact's newest event is such a request or the details were back-filled: the code keeps
+\* them for every state, the newest event only decides the state
+DetailsMatchRef(K, r) == LET S == SetOf(r.set) IN
+                           ("cseed" \in DOMAIN r) =>
+                              \A c \in DOMAIN r.cs : /\ r.cseed[c] = RefDetail(K, S, c, "seed")
+                                                     /\ r.cmeta[c] = RefDetail(K, S, c, "meta")
 KnownSet(K, S) == S \subseteq DOMAIN K
 ContactsMatchRef(K, r) == LET S == SetOf(r.set) IN
-                            KnownSet(K, S) /\ \A c \in DOMAIN r.cs : r.cs[c] = RefContact(K, S, c)
+                            /\ KnownSet(K, S) /\ \A c \in DOMAIN r.cs : r.cs[c] = RefContact(K, S, c)
+                            /\ DetailsMatchRef(K, r)
 MatchesRef(K, r) == LET S == SetOf(r.set) IN
                       /\ KnownSet(K, S)
                       /\ r.sw = RefSw(K, S) /\ r.seed = RefSeed(K, S)
                       /\ \A c \in DOMAIN r.cs : r.cs[c] = RefContact(K, S, c)
                       /\ \A g \in DOMAIN r.gj : r.gj[g] = RefGroup(K, S, g)
+                      /\ DetailsMatchRef(K, r)
 StateOf(r) == r.view      \* canonical rendering of everything the replica reports (driver)
 
 \* ---- clauses on the states reported after a step (K = the entry kinds including this step's entry)
@@ -93,7 +104,9 @@ C07OpOK == IF Ev.s \in BadOps THEN ~Ev.ok /\ Ev.grew = 0
 
 MReset == Consume("reset") /\ kinds' = <<>> /\ memo' = {} /\ prev' = <<>>
 MOp == /\ Consume("op")
-       /\ LET K == IF Ev.ok /\ Has("e") THEN Append(kinds, [k |-> Ev.evk, sub |-> SubOf, past |-> SetOf(Ev.before)]) ELSE kinds IN
+       /\ LET K == IF Ev.ok /\ Has("e") THEN Append(kinds, [k |-> Ev.evk, sub |-> SubOf, past |-> SetOf(Ev.before),
+                                                                seed |-> IF Has("cseed") /\ Ev.evk \in {"enq", "recv"} THEN Ev.cseed ELSE "-",
+                                                                meta |-> IF Has("cmeta") /\ Ev.evk \in {"enq", "recv"} THEN Ev.cmeta ELSE "-"]) ELSE kinds IN
             /\ kinds' = K
             /\ ((Ev.ok /\ Has("e")) => Ev.e = Len(kinds) + 1)
             /\ (Prop = "C07" => C07OpOK)
